@@ -59,7 +59,15 @@ def run_case(acc, cseed, spec, stack_holder):
     blocks = []
     brothers = []
 
+    pool = stack_holder.setdefault("pool", [])
+
     def mk(nfs):
+        # a header that was already sent before on this manager, in whatever role (block
+        # then brother, brother then block - an uncle of a sibling): 15% of the headers
+        cands = [h for h in pool if h["nfields"] in nfs]
+        if cands and rng.random() < 0.15:
+            acc.count("headers_sent_again_in_another_request")
+            return rng.choice(cands)
         # boundary: one of the header's RLP list payloads sits exactly where the
         # list prefix changes form (54..57, 255..257 bytes)
         if boundary and rng.random() < 0.6:
@@ -75,6 +83,11 @@ def run_case(acc, cseed, spec, stack_holder):
             brothers.append([mk([19, 20]) for _ in range(nbro)])
         else:
             blocks.append(mk([17, 18, 19, 20]))
+    for h in blocks + [x for bl in brothers for x in bl]:
+        if len(pool) < 60:
+            pool.append(h)
+        else:
+            pool[rng.randrange(60)] = h
     pol = {}
     stop = None
     r = rng.random()
@@ -232,8 +245,9 @@ def run_shard(spec, acc):
     holder = {}
     for i in range(spec["n"]):
         run_case(acc, rng.getrandbits(48), spec, holder)
-    for v in holder.values():
-        v[0].__exit__(None, None, None)
+    for k, v in holder.items():
+        if k != "pool":
+            v[0].__exit__(None, None, None)
 
 
 def replay(case, acc):
